@@ -1,6 +1,7 @@
 // Engine binary for the text-level checks: C05 (assembly text <-> machine code, C binding, firmware) and
 // C02 (one decode per opcode; consumers agree on form and length; unused bits).  Links the real
 // disassembler, parser, C binding and makedsp1; executes through libimpl.so (engines/isa glue).
+#include <cstdio>
 #include <fstream>
 #include <sstream>
 #include "../isa/isa_spec.h"
@@ -198,6 +199,7 @@ struct C05 {
             return std::vector<unsigned char>((std::istreambuf_iterator<char>(f)), std::istreambuf_iterator<char>());
         };
         auto mine = slurp(outp), shipped = slurp(bin);
+        std::remove(outp.c_str());
         unlink(outp.c_str());
         if (rc != 0 || shipped.empty()) {
             Fail("firmware:assemble-failed:" + name, Fmt("makedsp1 on %s returned %d (shipped binary %zu bytes)", src.c_str(), rc, shipped.size()), rp);
@@ -542,7 +544,10 @@ inline int Replay(const std::string& r, Result& res, const std::string& repo) {
         e.Opcode((u16)a, false);
     } else if (std::sscanf(r.c_str(), "c05 firmware %63s", name) == 1) {
         C05 e(c, res);
-        e.Firmware(repo, name, "/tmp");
+        char tmpl[] = "/tmp/verif_fw_XXXXXX";
+        std::string dir = mkdtemp(tmpl);
+        e.Firmware(repo, name, dir);
+        rmdir(dir.c_str());
     } else if (std::sscanf(r.c_str(), "c05 ararp %u %u", &a, &b) == 2) {
         C05 e(c, res);
         e.ArArp((int)a, (u16)b);
